@@ -42,6 +42,7 @@ class FrameExec(Exec):
         self.set_consts = set()                # constants standing for sets built in loops
         self.order_source = {}                 # tainted constant -> s-expression of the sequence whose iteration produced it
         self.order_free = set(spec.get("order_free", []))
+        self.unknown_heads = set()
 
     def sub_exec(self, side):
         ex = FrameExec(self.ctx, self.fname, self.spec)
@@ -50,6 +51,7 @@ class FrameExec(Exec):
         ex.order_source = self.order_source
         ex.set_consts = self.set_consts
         ex.findings = []               # findings of dry runs are discarded
+        ex.unknown_heads = self.unknown_heads
         return ex
 
     # ---------------------------------------------------------------------------------------------- provenance
@@ -98,7 +100,27 @@ class FrameExec(Exec):
             return {"fresh"}
         if n == "If":
             return self.prov(v.arg(1)) | self.prov(v.arg(2))
-        return {"immutable"}
+        if n in IMMUTABLE_HEADS or n.endswith(("!exc", "_msg")) or n.startswith(("py_format", "isinst_", "is_", "py_", "re_", "CALLV", "SYMBOL", "LAMBDIFY", "sym_",
+                                                                              "PATH_", "np_is", "np_all", "np_item", "EXPR_TEXT", "json_", "str_", "ADD", "SUB",
+                                                                              "MUL", "DIV", "NEG", "POW", "RECIP", "FN_", "ELEM", "COMP", "CFLAST", "int_of", "tag")):
+            return {"immutable"}
+        if "!post!" in n:
+            # a component after a call under contract: the same object as before the call (updated in place or replaced by the callee's own)
+            comp = n.split("!post!", 1)[1]
+            if comp.startswith("self."):
+                return {(r.lstrip("~") + comp[4:]) if r not in ("fresh", "immutable") else r for r in (self.prov(v.arg(0)) if v.num_args() else {"fresh"})}
+            return {"global." + comp}
+        if n.startswith("meth_"):
+            return self.prov(v.arg(0))          # the receiver after a mutating method: the same object
+        if n == "np_ndindex" or n.startswith("Command_"):
+            return {"fresh"}
+        # a head this engine does not know: its result may be (or contain) any of its arguments
+        out = set()
+        for a in v.children():
+            if not z3.is_bool(a) and not z3.is_int(a):
+                out |= self.prov(a)
+        self.unknown_heads.add(n)
+        return (out - {"immutable", "fresh"}) or {"immutable"}
 
     def nonlocal_regions(self, v):
         return {r for r in self.prov(v) if r not in ("fresh", "immutable")}
